@@ -142,6 +142,77 @@ pub struct Case {
     /// replay aid: flip only this bit of the reply instead of sweeping all of them
     #[serde(default)]
     pub reply_bit: Option<u32>,
+    /// how the server's zone handler comes into being
+    #[serde(default)]
+    pub boot: Boot,
+}
+
+#[derive(Clone, Copy, Debug, Default, PartialEq, Eq, Serialize, Deserialize)]
+pub enum Boot {
+    /// `SqliteZoneHandler::new` + `set_tsig_signers` (what the bulk of the cases use)
+    #[default]
+    Direct,
+    /// `SqliteZoneHandler::try_from_config` as the server binary does: zone file, journal file and
+    /// TSIG key files in a scratch directory; first start (journal created from the zone file)
+    Config,
+    /// the same, then the handler is dropped and configured again: the journal exists now and the
+    /// zone is recovered from it
+    ConfigRestart,
+}
+
+const ZONE_FILE: &str = "$ORIGIN zone.test.\n@ 300 IN SOA ns1.zone.test. admin.zone.test. 41 3600 600 86400 60\n@ 300 IN NS ns1.zone.test.\na 300 IN A 192.0.2.1\nb 300 IN TXT \"x\"\n";
+
+/// the handler configured the way `hickory-dns` configures a sqlite zone from its TOML
+fn boot_from_config(policy: AxfrPolicy, server_keys: &[Key], fudge: u16, restart: bool) -> Result<(Handler, tempfile::TempDir), Fail> {
+    use hickory_proto::rr::rdata::tsig::TsigAlgorithm;
+    use hickory_server::store::sqlite::{SqliteConfig, TsigKeyConfig};
+    let init = |e: String| Fail::new("harness-init", e);
+    let dir = if std::path::Path::new("/dev/shm").is_dir() {
+        tempfile::Builder::new().prefix("vcheck-c13-").tempdir_in("/dev/shm")
+    } else {
+        tempfile::Builder::new().prefix("vcheck-c13-").tempdir()
+    }
+    .map_err(|e| init(e.to_string()))?;
+    std::fs::write(dir.path().join("zone.test.zone"), ZONE_FILE).map_err(|e| init(e.to_string()))?;
+    let mut tsig_keys = Vec::new();
+    for (i, k) in server_keys.iter().enumerate() {
+        let f = format!("key{i}.bin");
+        std::fs::write(dir.path().join(&f), &k.secret).map_err(|e| init(e.to_string()))?;
+        tsig_keys.push(TsigKeyConfig {
+            name: to_name(&k.name).to_ascii(),
+            key_file: f.into(),
+            algorithm: match k.alg {
+                Alg::Sha256 => TsigAlgorithm::HmacSha256,
+                Alg::Sha384 => TsigAlgorithm::HmacSha384,
+                Alg::Sha512 => TsigAlgorithm::HmacSha512,
+            },
+            fudge,
+        });
+    }
+    let config = SqliteConfig {
+        zone_path: "zone.test.zone".into(),
+        journal_path: "zone.test.jrnl".into(),
+        allow_update: true,
+        tsig_keys,
+    };
+    let start = || {
+        block_on(Handler::try_from_config(
+            to_name(&updates::origin()),
+            hickory_server::zone_handler::ZoneType::Primary,
+            policy,
+            false,
+            Some(dir.path()),
+            &config,
+            None,
+        ))
+        .map_err(|e| Fail::new("server-configuration-refused", e))
+    };
+    let mut h = start()?;
+    if restart {
+        drop(h);
+        h = start()?;
+    }
+    Ok((h, dir))
 }
 
 fn k(name: &str, secret: &[u8], alg: Alg) -> Key {
@@ -521,9 +592,21 @@ pub fn body(c: &Case, rec: &mut Rec) -> CaseResult {
 
     // server
     let zone = base_zone();
-    let mut h = build_handler(&zone, c.kind.policy()).map_err(|e| Fail::new("harness-init", e))?;
-    // both sides configure the same fudge for a key (the reply's window is the server's fudge)
-    h.set_tsig_signers(server_keys.iter().map(|k| hickory_signer(k, c.fudge)).collect());
+    rec.class(format!("boot={:?}", c.boot));
+    let (h, _scratch) = match c.boot {
+        Boot::Direct => {
+            let mut h = build_handler(&zone, c.kind.policy()).map_err(|e| Fail::new("harness-init", e))?;
+            // both sides configure the same fudge for a key (the reply's window is the server's fudge)
+            h.set_tsig_signers(server_keys.iter().map(|k| hickory_signer(k, c.fudge)).collect());
+            (h, None)
+        }
+        Boot::Config | Boot::ConfigRestart => {
+            let (h, dir) = boot_from_config(c.kind.policy(), &server_keys, c.fudge, c.boot == Boot::ConfigRestart)?;
+            let loaded = snapshot(&h);
+            vensure!(loaded.zone == zone, "configured-zone-differs-from-zone-file", "{:?}: {}", c.boot, zone_diff(&zone, &loaded.zone));
+            (h, Some(dir))
+        }
+    };
     let h = Arc::new(h);
     let mut catalog = Catalog::new();
     catalog.upsert(h.origin().clone(), vec![h.clone()]);
@@ -916,6 +999,18 @@ fn any_case(_t: Tier) -> impl Strategy<Value = Case> {
         id,
         edns,
         reply_bit: None,
+        boot: Boot::Direct,
+    })
+}
+
+/// the requests that matter most (unmodified, wrong key, stale, unsigned) against a server
+/// configured from files, half of them after a restart
+fn configured_case(t: Tier) -> impl Strategy<Value = Case> {
+    let m = prop_oneof![3 => Just(Mutation::None), 2 => Just(Mutation::TsigRemoved { fix_count: true }), 3 => mutation()];
+    (any_case(t), m, any::<bool>()).prop_map(|(mut c, m, restart)| {
+        c.mutation = m;
+        c.boot = if restart { Boot::ConfigRestart } else { Boot::Config };
+        c
     })
 }
 
@@ -932,6 +1027,7 @@ fn unmodified_case(_t: Tier) -> impl Strategy<Value = Case> {
         id,
         edns,
         reply_bit: None,
+        boot: Boot::Direct,
     })
 }
 
@@ -950,12 +1046,14 @@ fn enum_base(kind: Kind, alg: Alg, edns: bool, mutation: Mutation) -> Case {
         id: 0x1234,
         edns,
         reply_bit: None,
+        boot: Boot::Direct,
     }
 }
 
 pub fn check() -> Option<Check> {
     let mutations = prop("request_mutations", 40_000, 2_000_000, any_case, body);
     let complete = prop("unmodified_requests", 3_000, 100_000, unmodified_case, body);
+    let configured = prop("configured_from_files", 4_000, 100_000, configured_case, body);
     // every single-bit flip of the whole request, for each kind x algorithm (EDNS on for SHA-256)
     let flips = enumerate(
         "every_request_bit_flip",
@@ -998,13 +1096,13 @@ pub fn check() -> Option<Check> {
     Some(Check {
         id: "C13",
         level: "exploration",
-        rule: "requests built and TSIG-signed by hickory's client (UPDATE with/without prerequisite; AXFR under Deny/AllowAll/AllowSigned; HMAC-SHA256/384/512; with/without EDNS; key sets: none, one, two, same name/other secret, same name twice, other name/same secret, other algorithm; Time Signed normal, < fudge, around 2^32; fudge 0, 1, 300, 65535) x server clock {t-fudge-1, t-fudge, inside, t, t+fudge, t+fudge+1, far} x mutation {bit flip, byte set, section-count set/shift, TSIG field edit with original or recomputed MAC (key name, algorithm, time, fudge, MAC truncated/extended/flipped, original ID, error, other data, class, TTL), TSIG removed/duplicated/not last, trailing octets, header ID, re-signed by the reference signer}; every_request_bit_flip enumerates all single-bit flips of 12 base requests, every_mac_length all MAC lengths; for unmodified in-window requests every single-bit flip of the reply is given to TSigVerifier. Non-trivial = distinct case AND (the mutation touches a signed octet, the MAC or a TSIG field, OR the clock is within 1 of a fudge edge, OR the completeness clause incl. the reply-flip sweep ran)",
+        rule: "requests built and TSIG-signed by hickory's client (UPDATE with/without prerequisite; AXFR under Deny/AllowAll/AllowSigned; HMAC-SHA256/384/512; with/without EDNS; key sets: none, one, two, same name/other secret, same name twice, other name/same secret, other algorithm; Time Signed normal, < fudge, around 2^32; fudge 0, 1, 300, 65535) x server clock {t-fudge-1, t-fudge, inside, t, t+fudge, t+fudge+1, far} x mutation {bit flip, byte set, section-count set/shift, TSIG field edit with original or recomputed MAC (key name, algorithm, time, fudge, MAC truncated/extended/flipped, original ID, error, other data, class, TTL), TSIG removed/duplicated/not last, trailing octets, header ID, re-signed by the reference signer}; every_request_bit_flip enumerates all single-bit flips of 12 base requests, every_mac_length all MAC lengths; for unmodified in-window requests every single-bit flip of the reply is given to TSigVerifier; configured_from_files runs unmodified / unsigned / mutated requests against a handler built by SqliteZoneHandler::try_from_config from a zone file, key files and a journal in a scratch directory, half of them after a restart that recovers the zone from the journal (same oracle: policy and keys must survive the configuration path). Non-trivial = distinct case AND (the mutation touches a signed octet, the MAC or a TSIG field, OR the clock is within 1 of a fudge edge, OR the completeness clause incl. the reply-flip sweep ran)",
         assumptions: vec![
             "octets RFC 8945 leaves outside the MAC (header ID via original-ID substitution, TSIG CLASS and TTL which enter the digest as constants, case of key/algorithm names, octets after the last counted record) may change without the request or reply counting as modified",
             "a key set with the same key name configured twice is outside the completeness clause (recorded)",
             "answers to non-AXFR questions (e.g. an UPDATE whose opcode was flipped to QUERY) are public data, not 'zone data returned'",
             "server clock = interposed CLOCK_REALTIME read by Time::current_time()",
         ],
-        subs: vec![mutations, complete, flips, trunc],
+        subs: vec![mutations, complete, configured, flips, trunc],
     })
 }
